@@ -75,6 +75,23 @@ impl<'a> Read for Chunked<'a> {
         self.total += n as u64;
         Ok(n)
     }
+    /// a REAL vectored read (like BufReader's): one short-read decision for the whole call, the bytes spread over as many of the
+    /// buffers as they reach - a caller that assumes "a short vectored read only touches the first buffer" is wrong about such readers
+    fn read_vectored(&mut self, bufs: &mut [std::io::IoSliceMut<'_>]) -> std::io::Result<usize> {
+        let total: usize = bufs.iter().map(|b| b.len()).sum();
+        let mut tmp = vec![0u8; total];
+        let n = self.read(&mut tmp)?;
+        let mut off = 0;
+        for b in bufs.iter_mut() {
+            if off >= n {
+                break;
+            }
+            let k = b.len().min(n - off);
+            b[..k].copy_from_slice(&tmp[off..off + k]);
+            off += k;
+        }
+        Ok(n)
+    }
 }
 impl<'a> Seek for Chunked<'a> {
     fn seek(&mut self, p: SeekFrom) -> std::io::Result<u64> {
@@ -167,6 +184,69 @@ fn drive(f: &mut dyn Read, bufs: &[usize], log_reads: bool, push: &mut dyn FnMut
 fn drive_api(f: &mut dyn Read, api: &str, size: usize, push: &mut dyn FnMut(Map<String, Value>)) {
     let mut v: Vec<u8> = if api == "read_to_end" { Vec::with_capacity(size) } else { Vec::new() };
     let r: std::io::Result<()> = match api {
+        // a few bytes through read() first (a caller sniffing a magic number), the REST through a std convenience, and once more at
+        // end-of-file: an implementation that specialises the convenience must agree with plain read() about what remains
+        "sniff_read_to_end" | "sniff_copy" | "sniff_read_exact" => {
+            let mut head = [0u8; 5];
+            let mut got = 0usize;
+            let mut res = Ok(());
+            while got < head.len().min(size) {
+                match f.read(&mut head[got..]) {
+                    Ok(0) => break,
+                    Ok(n) => got += n,
+                    Err(e) => {
+                        res = Err(e);
+                        break;
+                    }
+                }
+            }
+            v.extend_from_slice(&head[..got]);
+            if res.is_ok() {
+                res = match api {
+                    "sniff_read_to_end" => f.read_to_end(&mut v).map(|_| ()),
+                    "sniff_copy" => std::io::copy(f, &mut v).map(|_| ()),
+                    _ => {
+                        let mut rest = vec![0u8; size.saturating_sub(got)];
+                        let r = f.read_exact(&mut rest);
+                        v.extend_from_slice(&rest);
+                        r
+                    }
+                };
+            }
+            if res.is_ok() {
+                // at end-of-file both ways of asking return nothing
+                let mut again = vec![];
+                res = f.read_to_end(&mut again).map(|_| ());
+                v.extend(again);
+            }
+            res
+        }
+        // vectored reads into three buffers of different sizes
+        "read_vectored" => {
+            let mut res = Ok(());
+            loop {
+                let (mut a, mut b, mut c) = ([0u8; 3], [0u8; 17], [0u8; 64]);
+                let n = {
+                    let mut bufs = [std::io::IoSliceMut::new(&mut a), std::io::IoSliceMut::new(&mut b), std::io::IoSliceMut::new(&mut c)];
+                    f.read_vectored(&mut bufs)
+                };
+                match n {
+                    Ok(0) => break,
+                    Ok(n) => {
+                        let mut all = vec![];
+                        all.extend_from_slice(&a);
+                        all.extend_from_slice(&b);
+                        all.extend_from_slice(&c);
+                        v.extend_from_slice(&all[..n.min(all.len())]);
+                    }
+                    Err(e) => {
+                        res = Err(e);
+                        break;
+                    }
+                }
+            }
+            res
+        }
         "read_to_end" | "read_to_end0" => f.read_to_end(&mut v).map(|_| ()),
         "read_to_string" => {
             let mut s = String::new();
